@@ -364,17 +364,61 @@ def run(chk):
     chk.check(len(c) == 1 and [src(a) for a in c[0].args] == ["od", "dest", "fileInfo", "True"], "R6", f"{E}:export_dcf | same writer with commissioning data", xd.loc(), "")
 
     # ------------------------------------------------------------------ R7 DCF extras
-    pvs = [c for c in ast.walk(ev) if isinstance(c, ast.Call) and dotted(c.func) == "eds.set" and folder.try_fold(c.args[1], sc, None) == "ParameterValue"]
-    chk.floor("R7", len(pvs), 2, "ParameterValue writers")
-    for c in pvs:
-        inside = [i for i in ast.walk(ev) if isinstance(i, ast.If) and src(i.test) == "device_commisioning" and any(x is c for x in ast.walk(i))]
-        chk.check(bool(inside), "R7", f"{E}:export_variable | ParameterValue only in DCF ({src(c.args[2])[:30]})", ex.loc(c), "")
-        v = src(c.args[2])
-        chk.check(v in ("var.value_raw", "_revert_variable(var.data_type, var.value)"), "R7", f"{E}:export_variable | ParameterValue source {v[:30]}", ex.loc(c), v)
-    dvs = [c for c in ast.walk(ev) if isinstance(c, ast.Call) and dotted(c.func) == "eds.set" and folder.try_fold(c.args[1], sc, None) == "DefaultValue"]
-    for c in dvs:
-        v = src(c.args[2])
-        chk.check(v in ("var.default_raw", "_revert_variable(var.data_type, var.default)"), "R7", f"{E}:export_variable | DefaultValue source {v[:30]}", ex.loc(c), v)
+    # decided by specialising export_variable for probe variables: the original text wins when there is one, else the value is
+    # converted, nothing is written for None; ParameterValue only in a DCF.  (3 x 4 x 2 probes per option.)
+    from .edscommon import ABSENT, export_writes
+    rvf = [n for n in mod.tree.body if isinstance(n, ast.FunctionDef) and n.name == "_revert_variable"]
+    sim_ok = bool(rvf)
+    n_probe = 0
+    for raw_attr, val_attr, key, dcf_only in (("default_raw", "default", "DefaultValue", False), ("value_raw", "value", "ParameterValue", True)):
+        bad = None
+        for dcf in (False, True):
+            for raw in (ABSENT, None, "0x2A", "$NODEID+0x10"):
+                for val in (None, 0, 7, -3):
+                    r = export_writes(repo, folder, {raw_attr: raw, val_attr: val}, dcf)
+                    if r[0] == "unknown":
+                        sim_ok = False
+                        break
+                    n_probe += 1
+                    what = f"{raw_attr}={'<absent>' if raw is ABSENT else repr(raw)}, {val_attr}={val!r}, {'DCF' if dcf else 'EDS'}"
+                    if r[0] == "raise":
+                        bad = bad or f"{what}: exporting raises {r[1]}"
+                        continue
+                    got = [v for _s, k, v in r[1] if k == key]
+                    if dcf_only and not dcf:
+                        want = []
+                    elif raw is not ABSENT and raw is not None:
+                        want = [raw]
+                    elif val is not None:
+                        t = partial_eval(folder, rvf[0], mod, None, dict(zip([a.arg for a in rvf[0].args.args], [5, val])))
+                        if t[0] != "return":
+                            sim_ok = False
+                            break
+                        want = [t[1]]
+                    else:
+                        want = []
+                    if got != want:
+                        bad = bad or f"{what}: {key} written as {got}, expected {want}" + (" (the original text of an imported value must be re-emitted verbatim)" if want and want[0] == raw else "")
+                if not sim_ok:
+                    break
+            if not sim_ok:
+                break
+        if not sim_ok:
+            break
+        chk.check(bad is None, "R7", f"{E}:export_variable | {key} from {raw_attr} else {val_attr}" + (", only in a DCF" if dcf_only else ""), ex.loc(ev), bad or "",
+                  "export_variable specialised for probe variables (original text absent / None / present x value None / 0 / positive / negative x EDS / DCF)")
+    if not sim_ok:
+        pvs = [c for c in ast.walk(ev) if isinstance(c, ast.Call) and dotted(c.func) == "eds.set" and folder.try_fold(c.args[1], sc, None) == "ParameterValue"]
+        chk.floor("R7", len(pvs), 2, "ParameterValue writers")
+        for c in pvs:
+            inside = [i for i in ast.walk(ev) if isinstance(i, ast.If) and src(i.test) == "device_commisioning" and any(x is c for x in ast.walk(i))]
+            chk.check(bool(inside), "R7", f"{E}:export_variable | ParameterValue only in DCF ({src(c.args[2])[:30]})", ex.loc(c), "")
+            v = src(c.args[2])
+            chk.check(v in ("var.value_raw", "_revert_variable(var.data_type, var.value)"), "R7", f"{E}:export_variable | ParameterValue source {v[:30]}", ex.loc(c), v)
+        dvs = [c for c in ast.walk(ev) if isinstance(c, ast.Call) and dotted(c.func) == "eds.set" and folder.try_fold(c.args[1], sc, None) == "DefaultValue"]
+        for c in dvs:
+            v = src(c.args[2])
+            chk.check(v in ("var.default_raw", "_revert_variable(var.data_type, var.default)"), "R7", f"{E}:export_variable | DefaultValue source {v[:30]}", ex.loc(c), v)
     dc = [c for c in ast.walk(ex.node) if isinstance(c, ast.Call) and dotted(c.func) == "eds.set" and folder.try_fold(c.args[0], sc, None) == "DeviceComissioning"]
     got = {folder.try_fold(c.args[1], sc, None): src(c.args[2]) for c in dc}
     chk.check(got == {"Baudrate": "int(od.bitrate / 1000)", "NodeID": "int(od.node_id)"}, "R7", f"{E}:export_eds | DeviceComissioning options", ex.loc(), f"{got}")
@@ -430,7 +474,30 @@ def run(chk):
 
     # ------------------------------------------------------------------ R9 presence: an attribute that is set is written
     from ..loader import Func
-    for nm in ("export_variable", "export_common"):
+    # decided by specialisation where possible: for every optional attribute, each value that counts as set (a limit of 0 or below
+    # included) must make export_variable write the option
+    set_probes = {"data_type": ("DataType", (5, 0x10)), "access_type": ("AccessType", ("ro", "const")), "storage_location": ("StorageLocation", ("RAM", "PERSIST_COMM")),
+                  "min": ("LowLimit", (0, -5, 3)), "max": ("HighLimit", (0, 255, -1)), "description": ("Description", ("some text", "0")),
+                  "factor": ("Factor", (2.5, 0.5)), "unit": ("Unit", ("mm", "0")), "pdo_mappable": ("PDOMapping", (True, False)), "name": ("ParameterName", ("A name", "x=%y"))}
+    probed = True
+    verdicts = []
+    for attr_, (key_, values_) in set_probes.items():
+        miss = None
+        for v_ in values_:
+            r = export_writes(repo, folder, {attr_: v_}, False)
+            if r[0] != "writes":
+                probed = False
+                break
+            if key_ not in [k for _s, k, _v in r[1]]:
+                miss = miss or f"{attr_} = {v_!r}: {key_} is not written, the attribute is lost in the document"
+        if not probed:
+            break
+        verdicts.append((attr_, key_, miss))
+    if probed:
+        for attr_, key_, miss in verdicts:
+            chk.check(miss is None, "R9", f"{E}:export_variable | {key_} written whenever {attr_} is set", ex.loc(ev), miss or "",
+                      "export_variable specialised for probe variables with the attribute set to boundary values")
+    for nm in (() if probed else ("export_variable", "export_common")):
         nodes = [n for n in ast.walk(ex.node) if isinstance(n, ast.FunctionDef) and n.name == nm]
         if not nodes:
             chk.unk("R9", f"{E}:export_eds.{nm}", ex.loc(), "helper not found")
